@@ -61,7 +61,9 @@ Error JitRuntime::_add(void** dst, CodeHolder* code) noexcept {
       size_t virtual_size = size_t(section->virtual_size());
 
       ASMJIT_ASSERT(offset + buffer_size <= span.size());
-      memcpy(rw + offset, section->data(), buffer_size);
+      if (buffer_size) {
+        memcpy(rw + offset, section->data(), buffer_size);
+      }
 
       if (virtual_size > buffer_size) {
         ASMJIT_ASSERT(offset + virtual_size <= span.size());
